@@ -34,11 +34,12 @@ def mode_set_same_except(L, pre, post, added=(), removed=()):
 def path_save(ctx, job, box):
     geom = job.params.get('geom')
     via = job.params.get('via', 'api')
+    spopt = job.params['sp'] if job.params['sp'] <= 2 else ('deep', job.params['sp'])
     if geom:
-        run = GridRun(ctx, box, geom[0], geom[1], cursor='pick', tabstops=1, savepoints=job.params['sp'],
+        run = GridRun(ctx, box, geom[0], geom[1], cursor='pick', tabstops=1, savepoints=spopt,
                       sp_charsets='fixed', charset='symsel')
     else:
-        run = GridRun(ctx, box, None, None, buffer='one', tabstops=1, savepoints=job.params['sp'],
+        run = GridRun(ctx, box, None, None, buffer='one', tabstops=1, savepoints=spopt,
                       sp_charsets='fixed', charset='symsel', geom_max=(140, 40))
     L = run.L
     if via == 'api':
@@ -78,11 +79,12 @@ def path_restore(ctx, job, box):
     geom = job.params.get('geom')
     nsp = job.params['sp']
     via = job.params.get('via', 'api')
+    spopt = nsp if nsp <= 2 else ('deep', nsp)
     if geom:
-        run = GridRun(ctx, box, geom[0], geom[1], cursor='pick', tabstops=1, savepoints=nsp, sp_charsets='fixed',
+        run = GridRun(ctx, box, geom[0], geom[1], cursor='pick', tabstops=1, savepoints=spopt, sp_charsets='fixed',
                       charset='symsel')
     else:
-        run = GridRun(ctx, box, None, None, buffer='one', tabstops=1, savepoints=nsp, sp_charsets='fixed',
+        run = GridRun(ctx, box, None, None, buffer='one', tabstops=1, savepoints=spopt, sp_charsets='fixed',
                       charset='symsel', geom_max=(140, 40))
     L = run.L
     ss = run.ss
@@ -163,6 +165,12 @@ def jobs(tier):
         for sp in (0, 1, 2):
             js.append(Job('save/%s/param/%d' % (via, sp), path_save, geom=None, sp=sp, via=via, prop=PROP))
             js.append(Job('restore/%s/param/%d' % (via, sp), path_restore, geom=None, sp=sp, via=via, prop=PROP))
+    # deep stacks: a cap or a narrowed depth counter shows only there
+    deep = (15, 16, 17, 64, 255, 256) if tier == 'quick' else (3, 7, 8, 9, 10, 15, 16, 17, 31, 32, 33, 63, 64, 65, 99, 100,
+                                                               127, 128, 129, 255, 256, 257, 999, 1000, 1023, 1024, 1025)
+    for sp in deep:
+        js.append(Job('save/api/param/deep%d' % sp, path_save, geom=None, sp=sp, via='api', prop=PROP))
+        js.append(Job('restore/api/param/deep%d' % sp, path_restore, geom=None, sp=sp, via='api', prop=PROP))
     for g in [(2, 2)] if tier == 'quick' else [(2, 2), (3, 2)]:
         for sp in (0, 1, 2):
             js.append(Job('save/api/%dx%d/%d' % (g[0], g[1], sp), path_save, geom=g, sp=sp, prop=PROP))
@@ -178,8 +186,10 @@ def jobs(tier):
 META = {
     'functions': ['save_cursor', 'restore_cursor', 'set_mode', 'reset_mode', 'cursor_position', 'ensure_hbounds',
                   'ensure_vbounds', 'ParserListener::escape_dispatch', 'every other operation of the sweep (stack untouched)'],
-    'bounds': 'symbolic geometry 1..=140 x 1..=40 and 2x2 (thorough +3x2) grids; stack depth 0..2 with symbolic saved '
+    'bounds': 'symbolic geometry 1..=140 x 1..=40 and 2x2 (thorough +3x2) grids; stack depth 0..2 (plus deep stacks whose lower entries share one symbolic value) with symbolic saved '
               'positions (0..=200, i.e. outside the screen too), renditions, visibility, charset triple, DECOM/DECAWM '
               'flags; current margins, modes, cursor symbolic',
-    'outside': 'stack depth above 2 (entries below the top are shown untouched, so deeper stacks follow by induction)',
+    'outside': 'stack depths other than 0..2 and the listed deep ones (quick 15,16,17,64,255,256; thorough 27 depths up '
+               'to 1025; entries below the top are shown untouched, so other depths follow by induction unless the code '
+               'treats a particular depth specially)',
 }
